@@ -8,8 +8,9 @@
    [fresh_conns] only says that connection numbers name distinct network connections.
    The clause "for every interleaving with traffic to the connecting client id" is in Conc/Connack.v
    (theorems below: C13_connack_first_schedules_refuted / _modulo_findings). *)
-From MV Require Import Base.Val Session.Lifecycle Session.LifeSpec Session.LifeBase Session.LifeProofs13 Conc.Connack
+From MV Require Import Base.Val Base.Sched Session.Lifecycle Session.LifeSpec Session.LifeBase Session.LifeProofs13 Conc.Connack
   Conc.ConnackProofs.
+From MV Require Conc.Limit Session.LifeLimit.
 Open Scope N_scope.
 
 Definition model_obs (k : caps) (ops : list op) : list obs := map obs_of (trace k init ops).
@@ -44,6 +45,17 @@ Theorem C13_connack_first_modulo_findings : forall sched,
   KF_C13_publish_before_connack sched = false -> connack_first (run_connack sched) = true.
 Proof. exact connack_first_modulo. Qed.
 
+(* at the connected-client limit (interleaving model Conc/Limit.v of the early check and
+   reserveClientSlot): for every schedule of concurrent attempts, an attempt that is refused has
+   been answered by a failure CONNACK carrying the reason code of its protocol version (0x89 for
+   MQTT 5, 0x03 for MQTT 3.x) - the status [Refused k] of the model stands for "failure CONNACK k
+   sent, connection closed"; the monitor engine life13limit (Session/LifeLimit.v) checks on the
+   forced schedules of the real broker that a refused attempt's FIRST packet is that CONNACK *)
+Theorem C13_limit_refusal_is_connack : forall (max : Z) (specs : list Limit.tspec) (sched : list tid) (t : tid) (k : N),
+  Limit.stat t (run Limit.exec sched (Limit.limit_threads max specs)) = Some (Limit.Refused k) ->
+  exists sp, nth_error specs t = Some sp /\ k = Limit.refusal_code (Limit.ts_ver sp).
+Proof. exact LifeLimit.refusal_is_connack. Qed.
+
 (* non-vacuity: an accepted and a refused connection *)
 Definition cpA (ver : N) (res : bool) : cparams :=
   {| cp_pname := name_MQTT; cp_ver := ver; cp_reserved := res; cp_clean := true; cp_willflag := false; cp_willqos := 0;
@@ -58,6 +70,7 @@ Example C13_nonvacuous :
 Proof. vm_compute. reflexivity. Qed.
 
 Print Assumptions C13_first.
+Print Assumptions C13_limit_refusal_is_connack.
 Print Assumptions C13_auth.
 Print Assumptions C13_invalid_connect.
 Print Assumptions C13_validate_sound.
